@@ -122,8 +122,10 @@ class St:
 
 
 class Fn:
-    def __init__(self, fn, prop, out, stats):
+    def __init__(self, fn, prop, out, stats, summaries=None):
         self.fn, self.prop, self.out, self.stats = fn, prop, out, stats
+        self.summaries = summaries or {}       # callee -> {(param index, field suffix)}: the callee leaves a fresh block there
+        self.hands_over = set()                # (param index, field suffix) this function fills with a block it allocated
         self.blocks = sa.blocks_by_id(fn)
         self.seen = set()
         self.paramids = {p["id"] for p in fn["params"]}
@@ -319,6 +321,23 @@ class Fn:
             if v is not None:
                 st.held.pop("obj:%d" % v["id"], None)
             return None
+        if c in self.summaries and c != self.fn["name"]:
+            for (pidx, suffix) in self.summaries[c]:
+                if pidx < len(args):
+                    a_ = args[pidx]
+                    while isinstance(a_, dict) and a_.get("k") == "cast":
+                        a_ = a_["e"]
+                    v = base_var(a_)
+                    ak = key(a_)
+                    sfx = suffix
+                    if ak is None and isinstance(a_, dict) and a_.get("k") == "unop" and a_["op"] == "&":
+                        ak = key(a_["e"])                       # f (&local): the caller names the field  local.field
+                        sfx = "." + suffix[2:] if suffix.startswith("->") else suffix
+                    if v is not None and ak is not None and v.get("param") is None and not v.get("global"):
+                        site = "site:%d:%s" % (line, suffix)
+                        st.held[site] = ("block that %s left in %s%s at line %d" % (c, v["name"], sfx, line), line)
+                        st.names[ak + sfx] = frozenset([site])
+                        self.note(line, "received:" + suffix, "proved")
         if c in GETSTR and args:
             a0 = args[0]
             while isinstance(a0, dict) and a0.get("k") == "cast":
@@ -367,6 +386,7 @@ class Fn:
         if res:
             what, t, l0 = res
             if what == "block":
+                self.note_handover(lhs, lk)
                 if t is not None:
                     st.bind[lk] = (t, l0)
                 if lhs.get("k") == "var" and lhs["id"] not in self.paramids and not lhs.get("global"):
@@ -396,6 +416,19 @@ class Fn:
         else:
             for nk in named:
                 self.release(st, nk)
+            if named:
+                self.note_handover(lhs, lk)
+
+    def note_handover(self, lhs, lk):
+        """p->field = <fresh block> with p a parameter: callers receive a block they have to free (mpz_out_raw_m fills out->allocated)"""
+        if lhs.get("k") != "member" or lk is None or "_mp_d" in lk:
+            return                           # limb blocks of mpz/mpq/mpf objects follow the init / clear protocol
+        v = base_var(lhs)
+        if v is None or v.get("param") is None:
+            return
+        pre = "v%d" % v["id"]
+        if lk.startswith(pre):
+            self.hands_over.add((v["param"], lk[len(pre):]))
 
     # ---- branch conditions over local scalars: evaluate / remember (trace partitioning) ----------
     def cond_of(self, term):
@@ -635,6 +668,21 @@ def run(prop="C04", tier="quick"):
     exc = set()
     for cols in spec_tsv("alloc_exceptions.tsv", 4):
         exc.add((cols[0], cols[1], cols[2]))
+    # pass 1: which functions leave a block they allocated in a field reachable through a parameter
+    summaries = {}
+    for path, fn in ex.functions():
+        if sa.is_foreign_fixture(path, FIXTURE):
+            continue
+        if not any(el["e"].get("k") == "call" and el["e"].get("callee") is None and akind(el["e"]) for b in fn["blocks"] for el in b["elems"]):
+            continue
+        a0 = Fn(fn, prop, [], collections.Counter())
+        try:
+            a0.run()
+        except AnalysisBroken:
+            continue
+        if a0.hands_over:
+            summaries[fn["name"]] = set(a0.hands_over)
+    res["stats"]["handover_summaries"] = len(summaries)
     for path, fn in ex.functions():
         if sa.is_foreign_fixture(path, FIXTURE):
             continue
@@ -643,12 +691,13 @@ def run(prop="C04", tier="quick"):
         for b in fn["blocks"]:
             for el in b["elems"]:
                 e = el["e"]
-                if e.get("k") == "call" and (e.get("callee") in INIT_FNS or e.get("callee") in GETSTR or (e.get("callee") is None and akind(e))):
+                if e.get("k") == "call" and (e.get("callee") in INIT_FNS or e.get("callee") in GETSTR or (e.get("callee") is None and akind(e))
+                                             or e.get("callee") in summaries):
                     has = True
         if not has:
             continue
         out = []
-        a = Fn(fn, prop, out, res["stats"])
+        a = Fn(fn, prop, out, res["stats"], summaries)
         a.run()
         res["stats"]["functions"] += 1
         for (line, kind), v in a.verdict.items():
@@ -669,7 +718,8 @@ def run(prop="C04", tier="quick"):
     res["findings"] = [f for f in res["findings"] if f.file != FIXTURE]
     exp = {"fix_free_wrong_size": ("R-ALLOC.size", "free-size"), "fix_leak_local": ("R-ALLOC.pair", "leak:"),
            "fix_leak_block": ("R-ALLOC.pair", "leak:"), "fix_alloc_good": None,
-           "fix_alloc_null_sentinel": None, "fix_alloc_null_sentinel_bad": ("R-ALLOC.pair", "leak:")}
+           "fix_alloc_null_sentinel": None, "fix_alloc_null_sentinel_bad": ("R-ALLOC.pair", "leak:"),
+           "fix_handover_leak": ("R-ALLOC.pair", "leak:"), "fix_handover_good": None}
     for fname, e2 in exp.items():
         got = [(f.rule, f.signature) for f in fx if f.function == fname]
         if e2 is None and got:
@@ -684,7 +734,7 @@ def run(prop="C04", tier="quick"):
     res["undecided"] = st["size_undecided"]
     res["samples"].append(dict(rule="R-ALLOC", functions=st["functions"], allocator_sites=st["allocator_sites"],
                                size_proved=st["size_proved"], size_undecided=st["size_undecided"], local_objects=st["local_objects"]))
-    res["notes"].append("fixtures: 4 positive fired, 2 negative silent")
+    res["notes"].append("fixtures: 5 positive fired, 3 negative silent")
     res["exhaustive"] = True
     return res
 
@@ -694,6 +744,7 @@ def run_io(prop="C17", tier="quick"):
     the wrong size on any path, in particular on their failure exits (`without crashing or leaking`)"""
     from r_tmp import IO_UNITS
     r = run(prop=prop, tier=tier)
-    r["findings"] = [f for f in r["findings"] if any(u in f.file for u in IO_UNITS) or "/printf/" in f.file or "/scanf/" in f.file]
+    r["findings"] = [f for f in r["findings"] if any(u in unoverlay(f.file) for u in IO_UNITS) or "/printf/" in unoverlay(f.file)
+                     or "/scanf/" in unoverlay(f.file)]
     r["notes"].append("findings restricted to the I/O units (%d patterns) and printf/ scanf/" % len(IO_UNITS))
     return r
